@@ -40,6 +40,8 @@ def resp_term(r):
         return 'RRows'
     if k == 1:
         return 'RVoid'
+    if k == 8:
+        return 'RRowsMore'
     if k == 2:
         return '(RPrepared %s)' % z(r[1])
     if k == 3:
@@ -53,7 +55,7 @@ def resp_term(r):
     return 'RJunk'
 
 
-def op_term(o):
+def op_term(o, sc=None):
     k = o[0]
     if k == 'start':
         return 'Start'
@@ -67,6 +69,11 @@ def op_term(o):
         return '(SetPool %s %s)' % (z(o[1]), PSTATE[o[2]])
     if k == 'ks':
         return '(SetKs %s)' % optz(o[1])
+    if k == 'page':
+        a = (sc or {}).get('analytics')
+        if sc and sc.get('target') is None and a and a.get('master') is not None:
+            return '(NextPage (replan_master %s %s))' % (z(a['master']), zlist(o[1]))
+        return '(NextPage %s)' % zlist(o[1])
     raise ValueError(o)
 
 
@@ -74,18 +81,22 @@ def config_term(sc):
     script = '[' + '; '.join('(%s, %s)' % (DECISION[d], optz(c)) for d, c in sc['script']) + ']'
     known = '[' + '; '.join('(%s, %s)' % (z(p[0]), ps_term(p)) for p in sc.get('known', [])) + ']'
     fps = 'None' if sc['ps'] is None else '(Some %s)' % ps_term(sc['ps'])
-    return '{| pol := scripted %s; fut_ps := %s; known := %s; pv := %s |}' % (script, fps, known, z(sc['pv']))
+    return '{| pol := scripted %s; fut_ps := %s; known := %s; pv := %s; tgt := %s |}' % (script, fps, known, z(sc['pv']), optz(sc.get('target')))
 
 
 def init_term(sc):
     pools = '[' + '; '.join('(%d, %s)' % (i, PSTATE[p]) for i, p in enumerate(sc['pools'])) + ']'
-    return '(init %s %s %s %s %s %s %s %s)' % (zlist(sc['plan']), optz(sc.get('target')), pools, optz(sc['cl']),
+    lbplan = zlist(sc['plan'])
+    a = sc.get('analytics')
+    if a and a.get('master') is not None:
+        lbplan = '(replan_master %s %s)' % (z(a['master']), lbplan)
+    return '(init %s %s %s %s %s %s %s %s)' % (lbplan, optz(sc.get('target')), pools, optz(sc['cl']),
                                                'true' if sc['idem'] else 'false', 'true' if sc['spec'][0] else 'false',
                                                z(sc['spec'][1]), optz(sc.get('ks')))
 
 
 def ops_term(sc):
-    return '[' + '; '.join(op_term(o) for o in sc['ops']) + ']'
+    return '[' + '; '.join(op_term(o, sc) for o in sc['ops']) + ']'
 
 
 def case_term(sc, obs):
@@ -132,7 +143,7 @@ def random_resp(rng, sc, prep_attempt, weights=None, tagger=None):
         if rng.random() < 0.1:
             myid += 1
         return [4, myid, tag]
-    return rng.choice([[0], [1], [2, 3], [5, tag], [6, tag], [7], [0], [1]])
+    return rng.choice([[0], [1], [2, 3], [5, tag], [6, tag], [7], [0], [1], [8], [8]])
 
 
 def random_scenario(rng, weights=None, max_hosts=4, max_ops=14, env_changes=True):
@@ -148,6 +159,12 @@ def random_scenario(rng, weights=None, max_hosts=4, max_ops=14, env_changes=True
           'known': [], 'script': [], 'ops': []}
     if sc['ps'] is not None and rng.random() < 0.5:
         sc['pidem'] = rng.random() < 0.5
+    if sc['ps'] is not None and rng.random() < 0.3:
+        sc['markers'] = True          # statement with a bind marker (other branch of PreparedStatement.from_message)
+    if sc['target'] is None and rng.random() < 0.12:
+        sc['analytics'] = {'master': rng.choice([None] + list(range(n)))}
+    sc['metrics'] = rng.random() < 0.4    # Cluster(metrics_enabled=True)
+    sc['nids'] = rng.choice([1, 1, 2, 4, 300])   # size of the connections' stream-id deque (id 0 first, FIFO recycling)
     if rng.random() < 0.5:
         sc['known'] = [[7, rng.choice([3, 4]), rng.choice([None, 1, 2])]]
         if rng.random() < 0.5:       # the same text prepared under another keyspace: a second cached id
